@@ -20,7 +20,7 @@ import (
 
 // ---- proposal store of the C06 data-path harness: the proposals of target t1 by log index
 
-const c06MaxProps = 5
+const c06MaxProps = 8
 
 var c06Props [c06MaxProps]*configapi.Proposal
 
@@ -188,7 +188,7 @@ func VerifC06History() {
 	vStates[0] = int32(configapi.TransactionStatus_APPLIED)
 	pr := proposalctl.NewReconcilerForVerif(&c04Topo{}, &c04Conns{}, &c06PropStore{}, store, &c06Registry{})
 	h := verifrt.Param("sets")
-	c06Pipelined = h >= 2 && verifrt.Fork("pipelined", 2) == 1
+	c06Pipelined = h >= 2 && verifrt.Param("chain") != 1 && verifrt.Fork("pipelined", 2) == 1
 	var snapLive [cfgstore.VLeaves]bool
 	var snapVal [cfgstore.VLeaves]uint8
 	for s := 1; s <= h; s++ {
@@ -271,6 +271,53 @@ func VerifC06History() {
 	verifrt.Cover("rolled-back")
 	c06CheckDoc("rollback-", &snapLive, &snapVal)
 	c06Check(ctx, srv, &snapLive, &snapVal, "after-rollback-")
+	// ---- chain: one more change, its rollback, and then the rollback of the change BEFORE the first rolled-back one (the
+	// most recent change of the target again, once everything after it was rolled back): each is accepted and exact
+	if verifrt.Param("chain") == 1 && h == 2 {
+		afterFirst, afterFirstVal := snapLive, snapVal
+		c := rb + 1
+		node := 3 * verifrt.Fork("chain.leaf", 2) // leaf /a/b/c or /l[k=1]/x
+		tv := cfgstore.VValue(uint8(c))
+		req := &gnmi.SetRequest{Prefix: &gnmi.Path{Target: "t1"}, Update: []*gnmi.Update{{Path: &gnmi.Path{Elem: c03Elems(node)},
+			Val: &gnmi.TypedValue{Value: &gnmi.TypedValue_StringVal{StringVal: string(tv.Bytes)}}}}}
+		vTx = nil
+		_, err := srv.Set(ctx, req)
+		verifrt.Assert(err == nil && vTx != nil, "chain-set-accepted")
+		if err != nil || vTx == nil {
+			return
+		}
+		stamped := make(map[string]*configapi.PathValue)
+		for p, v := range vTx.GetChange().Values["t1"].Values {
+			v.Index = configapi.Index(c)
+			stamped[p] = v
+		}
+		c06Props[c] = &configapi.Proposal{ID: proposalstore.NewID("t1", configapi.Index(c)), TargetID: "t1", TransactionIndex: configapi.Index(c),
+			Details: &configapi.Proposal_Change{Change: &configapi.ChangeProposal{Values: stamped}}}
+		c06Props[c].TargetType, c06Props[c].TargetVersion = "ty", "1"
+		if !c06Run(pr, c, true) {
+			return
+		}
+		// roll it back
+		c06Props[c+1] = &configapi.Proposal{ID: proposalstore.NewID("t1", configapi.Index(c+1)), TargetID: "t1", TransactionIndex: configapi.Index(c + 1),
+			Details: &configapi.Proposal_Rollback{Rollback: &configapi.RollbackProposal{RollbackIndex: configapi.Index(c)}}}
+		c06Props[c+1].TargetType, c06Props[c+1].TargetVersion = "ty", "1"
+		if !c06Run(pr, c+1, true) {
+			return
+		}
+		c06Check(ctx, srv, &afterFirst, &afterFirstVal, "chain-after-second-rollback-")
+		// roll back change 1: it is the most recent change of the target again
+		c06Props[c+2] = &configapi.Proposal{ID: proposalstore.NewID("t1", configapi.Index(c+2)), TargetID: "t1", TransactionIndex: configapi.Index(c + 2),
+			Details: &configapi.Proposal_Rollback{Rollback: &configapi.RollbackProposal{RollbackIndex: 1}}}
+		c06Props[c+2].TargetType, c06Props[c+2].TargetVersion = "ty", "1"
+		if !c06Run(pr, c+2, true) {
+			return
+		}
+		var none [cfgstore.VLeaves]bool
+		var noneVal [cfgstore.VLeaves]uint8
+		verifrt.Cover("chain-rolled-back-to-the-start")
+		c06Check(ctx, srv, &none, &noneVal, "chain-after-rolling-back-the-first-change-")
+		return
+	}
 	// ---- the same rollback once more: refused (the change is no longer the latest one), nothing altered
 	if verifrt.Param("again") == 1 {
 		rb2 := h + 2
